@@ -76,6 +76,54 @@ func VC27_DecodeAny() {
 	vReach("decode")
 }
 
+// (c) the router's message processing on a framed message of any content: decode and act on it (peer tables,
+// connection) without crashing. For peer-up the per-peer header and both OPEN messages are symbolic.
+func VC27_Process() {
+	n := vParam("n")
+	msg := ndBytes(n)
+	msg[0] = 3
+	msg[1], msg[2], msg[3], msg[4] = uint8(n>>24), uint8(n>>16), uint8(n>>8), uint8(n)
+	msg[5] = uint8(vParam("type"))
+	r := newRouter(net.IP{10, 0, 255, 1}, 0, adjRIBInFactory{}, RouterConfig{})
+	r.con = &c27Conn{}
+	if vParam("after_up") == 1 {
+		// a session exists already (so that route monitoring / peer down for it are acted upon)
+		r.processMsg(c27PeerUp())
+		if vParam("type") == 0 || vParam("type") == 2 {
+			// address the existing session: RD 0, peer 10.0.1.1 (flags stay symbolic)
+			for i := 8; i < 16; i++ {
+				msg[i] = 0
+			}
+			for i := 16; i < 28; i++ {
+				msg[i] = 0
+			}
+			msg[28], msg[29], msg[30], msg[31] = 10, 0, 1, 1
+		}
+	}
+	r.processMsg(msg)
+	vReach("processed")
+	r.cleanup()
+	vReach("cleaned")
+}
+
+func c27PeerUp() []byte {
+	open := func(as uint16, id uint32) []byte {
+		m := make([]byte, 0, 29)
+		for i := 0; i < 16; i++ {
+			m = append(m, 0xff)
+		}
+		return append(m, 0, 29, 1, 4, uint8(as>>8), uint8(as), 0, 90, uint8(id>>24), uint8(id>>16), uint8(id>>8), uint8(id), 0)
+	}
+	b := []byte{0, 0, 0, 0, 0, 0, 0, 0, 0, 0}
+	b = append(b, 0, 0, 0, 0, 0, 0, 0, 0, 0, 0, 0, 0, 10, 0, 1, 1)
+	b = append(b, 0, 0, 0xfe, 0x4d, 10, 0, 0, 9, 0, 0, 0, 1, 0, 0, 0, 0)
+	b = append(b, 0, 0, 0, 0, 0, 0, 0, 0, 0, 0, 0, 0, 10, 0, 255, 1, 0, 179, 0xc0, 1)
+	b = append(b, open(65000, 0x0a00ff01)...)
+	b = append(b, open(65101, 0x0a000101)...)
+	l := 6 + len(b)
+	return append([]byte{3, 0, 0, uint8(l >> 8), uint8(l), 3}, b...)
+}
+
 func VC27_Twin() {
 	msg := ndBytes(6)
 	_, _ = bmppkt.Decode(msg)
